@@ -419,9 +419,21 @@ func (fr *Frame) callDynamic(fv Term, c *ssa.CallCommon, args []Term, st *State,
 		u.typeInvUsed[key+"()"]++
 		return fr.freshResults(sig.Results(), st, "purefn"), st
 	}
+	leaves, leavesComplete := fr.funcLeaves(c.Value, 0)
+	inLeaves := func(mc *ssa.MakeClosure) bool {
+		if !leavesComplete {
+			return true
+		}
+		for _, l := range leaves {
+			if l == ssa.Value(mc) {
+				return true
+			}
+		}
+		return false
+	}
 	var cands []*closureSite
 	for _, cs := range u.closureSites {
-		if types.Identical(cs.fn.Signature, sig) && u.canInline(cs.fn, true) {
+		if types.Identical(cs.fn.Signature, sig) && u.canInline(cs.fn, true) && inLeaves(cs.mc) {
 			cands = append(cands, cs)
 		}
 	}
@@ -454,6 +466,17 @@ func (fr *Frame) callDynamic(fv Term, c *ssa.CallCommon, args []Term, st *State,
 		if f == nil || !types.Identical(f.Signature, sig) || len(f.FreeVars) > 0 || !u.canInline(f, true) {
 			continue
 		}
+		if leavesComplete {
+			found := false
+			for _, l := range leaves {
+				if l == ssa.Value(f) {
+					found = true
+				}
+			}
+			if !found {
+				continue
+			}
+		}
 		cond := Eq(fv, ft)
 		notAny = append(notAny, Not(cond))
 		bs := st.clone()
@@ -464,7 +487,7 @@ func (fr *Frame) callDynamic(fv Term, c *ssa.CallCommon, args []Term, st *State,
 		}
 		cands = append(cands, nil)
 	}
-	if fr.completeCandidates(c.Value) && len(branches) > 0 {
+	if (leavesComplete || fr.completeCandidates(c.Value)) && len(branches) > 0 {
 		// the function value is read from a local variable that only ever holds known closures/functions
 		if len(branches) == 1 {
 			return branches[0].res, branches[0].st
@@ -850,6 +873,8 @@ func (fr *Frame) mapLen(st *State, mt *types.Map, m Term) Term {
 	u.declareFun(name, []string{string(ArraySort(ks, SBool))}, SInt)
 	r := mk(SInt, name, dom)
 	u.assume(True, Ge(r, IntLit(0)))
+	empty := Term{fmt.Sprintf("((as const %s) false)", ArraySort(ks, SBool)), ArraySort(ks, SBool)}
+	u.assume(True, Eq(mk(SInt, name, empty), IntLit(0)))
 	return Ite(Eq(m, NilLoc), IntLit(0), r)
 }
 
@@ -1039,4 +1064,54 @@ func storesOnlyFuncs(al *ssa.Alloc, depth int) bool {
 		}
 	}
 	return n > 0
+}
+
+// funcLeaves: if v is (a phi of) closures / plain functions created in this function, or a load from a
+// non-escaping local variable that only ever holds such values, return them; complete=false otherwise.
+func (fr *Frame) funcLeaves(v ssa.Value, depth int) ([]ssa.Value, bool) {
+	if depth > 5 {
+		return nil, false
+	}
+	switch x := v.(type) {
+	case *ssa.MakeClosure:
+		return []ssa.Value{x}, true
+	case *ssa.Function:
+		return []ssa.Value{x}, true
+	case *ssa.Phi:
+		var out []ssa.Value
+		for _, e := range x.Edges {
+			l, ok := fr.funcLeaves(e, depth+1)
+			if !ok {
+				return nil, false
+			}
+			out = append(out, l...)
+		}
+		return out, true
+	case *ssa.UnOp:
+		if x.Op != token.MUL {
+			return nil, false
+		}
+		al, ok := x.X.(*ssa.Alloc)
+		if !ok || fr.u.allocEscapes(al) {
+			return nil, false
+		}
+		refs := al.Referrers()
+		if refs == nil {
+			return nil, false
+		}
+		var out []ssa.Value
+		for _, r := range *refs {
+			st, ok := r.(*ssa.Store)
+			if !ok || st.Addr != al {
+				continue
+			}
+			l, ok := fr.funcLeaves(st.Val, depth+1)
+			if !ok {
+				return nil, false
+			}
+			out = append(out, l...)
+		}
+		return out, len(out) > 0
+	}
+	return nil, false
 }
